@@ -22,7 +22,7 @@ import numpy as np
 
 ID = "C18"
 LEVEL = "proof"
-PROPS_MODULE = "SymmModel.Props.C18"
+PROPS_MODULE = "SymmModel.Props.C18All"
 THEOREMS = [
     "SymmModel.C18.applyOp_anticomm",
     "SymmModel.C18.applyOp_car",
@@ -39,13 +39,15 @@ THEOREMS = [
     "SymmModel.C18.chargemap_conserved",
     "SymmModel.C18.builtin_terms_neutral",
     "SymmModel.C18.indexmap_is_charge",
-]
+] + ["SymmModel.C18." + n for n in ['buildArray_spec', 'buildArray_elem', 'buildArray_valid', 'buildArray_nothing_discarded', 'dense_eq_DH', 'hermitian_action', 'action_matrix_similar', 'action_eq_one', 'action_entry_one', 'action_entries', 'action_eq', 'address_bijection', 'revSign_eq_tau', 'resolution_of_identity', 'fock_product', "product_law_one'", 'product_law', 'completeKets_of_states', 'action_eq_GRat']]
 LEAN_FILES = [
     "SymmModel.Model.FermiOps",
     "SymmModel.Driver.FermiOpsH",
     "SymmModel.Proofs.FermiOps",
     "SymmModel.Props.C18",
-]
+    "SymmModel.Props.C18b",
+    "SymmModel.Props.C18All",
+] + ["SymmModel.Proofs.FermiAction%d" % i for i in range(1, 8)]
 RULE = (
     "(a) random term lists (0-5 terms, words of length 0-6 over <=4 modes, half of them random "
     "non-vanishing Fock walks; integer / Gaussian-integer / dyadic coefficients incl. 0), 1-3 sites, "
